@@ -480,6 +480,42 @@ def h_identity_multiples_sampler(E, dim, kind):
     return 'ok'
 
 
+def _no_such_family(sym, traceless, det, dim, cplx):
+    """the documented list of option combinations that do not exist or cannot be generated (docs/grading_math/sampling.md, SquareMatrices docstring)"""
+    cplx = cplx or sym in ('hermitian', 'antihermitian')
+    if det == 0:
+        if traceless:
+            return True
+        if sym == 'antisymmetric' and (cplx or dim % 2 == 0):
+            return True
+    if det == 1:
+        if dim == 2 and traceless and ((sym in ('diagonal', 'symmetric') and not cplx) or sym == 'hermitian'):
+            return True
+        if dim % 2 == 1 and sym in ('antisymmetric', 'antihermitian'):
+            return True
+    return False
+
+
+def h_square_rules(E):
+    """every combination of symmetry x traceless x determinant x dimension 2..5 x complex: the constructor refuses exactly the documented
+    non-existent / unsupported families - so that every accepted combination is one whose draws can satisfy all its constraints"""
+    import mitxgraders.matrixsampling as M
+    from mitxgraders.exceptions import ConfigError
+    sym = E.choice('symmetry', [None, 'diagonal', 'symmetric', 'antisymmetric', 'hermitian', 'antihermitian'])
+    traceless = E.fork_bool('traceless')
+    det = E.choice('determinant', [None, 0, 1])
+    dim = E.fork_int('dimension', 2, 5)
+    cplx = E.fork_bool('complex')
+    try:
+        s = M.SquareMatrices(symmetry=sym, traceless=traceless, determinant=det, dimension=dim, complex=cplx)
+    except ConfigError:
+        E.check('constructor-refuses-exactly-the-documented-families', _no_such_family(sym, traceless, det, dim, cplx))
+        return 'refused'
+    E.check('constructor-refuses-exactly-the-documented-families', not _no_such_family(sym, traceless, det, dim, cplx))
+    E.check('hermitian-families-are-declared-complex', s.config['complex'] is (cplx or sym in ('hermitian', 'antihermitian')))
+    return 'built'
+
+
 def harnesses(tier):
     hs = []
     T = tier == 'thorough'
@@ -490,6 +526,7 @@ def harnesses(tier):
     for form in ('list', 'kwargs'):
         add(h_real_interval, 'real_interval', dict(form=form), 'ends any reals in [-6,6], any order, degenerate allowed')
     add(h_int_range, 'int_range', {}, 'ends any integers in [-4,4], any order')
+    add(h_square_rules, 'square_rules', {}, '6 symmetries x traceless x determinant None/0/1 x dimension 2..5 x complex', validate=False)
     add(h_complex_rect, 'complex_rect', {}, 'ends any reals in [-6,6]')
     add(h_complex_sector, 'complex_sector', {}, 'modulus ends in [0,6], argument ends in [-3,3]')
     for n in (1, 2, 4):
